@@ -127,6 +127,51 @@ Theorem C20_bounded_exit : forall tr s g, run init tr = Some s -> count_grace g 
 Proof. exact grace_once. Qed.
 Print Assumptions C20_bounded_exit.
 
+(* The FLAG-type stop trigger (stop_flag / OS signal = label StopFlag) at every moment, explicitly incl. during startup.
+   The stop-flag checker is not guarded by started_flag: it runs from time 0 ... *)
+Theorem C20_stop_flag_checker_unguarded :
+  ph init (TRoot RStopper) = PRun /\ ph init TWaiter = PRun /\ guarded RStopper = false.
+Proof. exact stopper_runs_from_start. Qed.
+Print Assumptions C20_stop_flag_checker_unguarded.
+
+(* ... and in every reachable state where run_tasks still waits — whatever the startup handlers are doing — the trigger
+   is followed through: checker finishes, run_tasks cancels all roots; if that was during startup, in EVERY continuation
+   the flags stay down and there is no StartupOk, no Flag, no API request and no cleanup (what the code does: the startup
+   is abandoned, "Startup activity is only partially executed", cleanup is not run).  Together with C20_bounded_exit
+   (each grace period at most once) this is the bounded exit for the flag trigger inside the startup phase.
+   aborted_for_good s3 := act s3 = AStopCore (Some OCancelled) /\ started s3 = false /\ forall post s4, run s3 post = Some s4 ->
+     started s4 = false /\ ready s4 = false /\ ~In StartupOk post /\ ~In Flag post /\ ~In CleanupBegin post /\ forall t, ~In (Api t) post *)
+Theorem C20_stop_flag_any_moment : forall tr s, run init tr = Some s ->
+  mn s = MWait -> stopflag s = false -> ph s (TRoot RStopper) = PRun -> ph s TWaiter = PRun -> act s <> AFlag ->
+  exists s3, run s stop_reaction = Some s3 /\ mn s3 = MStopRoots /\
+    (act s = AStartup \/ act s = AStartupBad -> ph s (TRoot RAct) = PRun -> aborted_for_good s3).
+Proof. exact stop_flag_any_moment. Qed.
+Print Assumptions C20_stop_flag_any_moment.
+
+(* the same for an OS signal (SIGINT/SIGTERM through signal_flag) *)
+Theorem C20_signal_any_moment : forall tr s, run init tr = Some s ->
+  mn s = MWait -> ph s (TRoot RStopper) = PRun -> act s <> AFlag ->
+  exists s3, run s signal_reaction = Some s3 /\ mn s3 = MStopRoots /\
+    (act s = AStartup \/ act s = AStartupBad -> ph s (TRoot RAct) = PRun -> aborted_for_good s3).
+Proof. exact signal_any_moment. Qed.
+Print Assumptions C20_signal_any_moment.
+
+(* and for ANY root task that finishes (e.g. fails) while the startup activity runs *)
+Theorem C20_root_done_during_startup : forall tr s x, run init tr = Some s ->
+  mn s = MWait -> is_done (ph s (TRoot x)) = true -> act s = AStartup \/ act s = AStartupBad -> ph s (TRoot RAct) = PRun ->
+  exists s3, step s MainStop = Some s3 /\ mn s3 = MStopRoots /\ aborted_for_good s3.
+Proof. exact mainstop_during_startup. Qed.
+Print Assumptions C20_root_done_during_startup.
+
+Example C20_stop_flag_mid_startup_hypotheses :
+  match run init tr_mid_startup with
+  | Some s => match mn s, stopflag s, ph s (TRoot RStopper), ph s TWaiter, act s, ph s (TRoot RAct) with
+              | MWait, false, PRun, PRun, AStartup, PRun => true | _, _, _, _, _, _ => false end
+  | None => false
+  end = true.
+Proof. exact mid_startup_hyps. Qed.
+Print Assumptions C20_stop_flag_mid_startup_hypotheses.
+
 (* Outside the single-trigger quantifier: stop flag, then cancellation while the roots are being stopped:
    run_tasks returns at once, with root tasks still alive. *)
 Example C20_double_trigger_returns_early :
